@@ -68,6 +68,7 @@ class Ctx:
         self.traces_validated = 0
         self.evaluations = 0
         self.distinct = set()
+        self.distinct_more = 0
         self.samples = []
         self.violations = []       # dicts {what, case, key}
         self.known_hits = {}       # finding id -> count
@@ -103,6 +104,18 @@ class Ctx:
             if not isinstance(key, (bytes, bytearray)):
                 key = json.dumps(key, sort_keys=True, default=str).encode()
             self.distinct.add(hashlib.blake2b(key, digest_size=8).digest())
+
+    def count_many(self, key, n, nontrivial=True):
+        """n executions whose cases are key + (0..n-1): distinct by construction; counted without hashing each (a thorough
+        tier with 10^8 of them would otherwise hold gigabytes of digests)"""
+        self.evaluations += n
+        if nontrivial and n > 0:
+            if not isinstance(key, (bytes, bytearray)):
+                key = json.dumps(key, sort_keys=True, default=str).encode()
+            h = hashlib.blake2b(key, digest_size=8).digest()
+            if h not in self.distinct:
+                self.distinct.add(h)
+                self.distinct_more += n - 1
 
     def sample(self, obj, limit=6):
         if len(self.samples) < limit:
@@ -350,7 +363,7 @@ class Ctx:
         wall = time.time() - self.t0
         cov = {
             "evaluations": self.evaluations,
-            "distinct_nontrivial": len(self.distinct),
+            "distinct_nontrivial": len(self.distinct) + self.distinct_more,
             "rule": self.rule,
             "samples": self.samples,
             "states": self.states,
@@ -404,7 +417,7 @@ class Ctx:
                 print("VIOLATION property=%s replay=%s" % (self.pid, rp), flush=True)
             return 1
         self.note("OK: %d evaluations (%d distinct non-trivial), %d model states, %d traces validated, %.1fs"
-                  % (self.evaluations, len(self.distinct), self.states, self.traces_validated, wall))
+                  % (self.evaluations, len(self.distinct) + self.distinct_more, self.states, self.traces_validated, wall))
         return 0
 
 
